@@ -324,8 +324,16 @@ impl Operator for QuantizeLinear {
     }
 
     fn output_types(&self, _ctx: &OutputTypesContext) -> Option<OutputTypeList> {
-        let dtype = self.output_dtype.unwrap_or(DataType::Int8);
-        Some([OutputType::Fixed(ValueType::Tensor(dtype))].into())
+        // Without an explicit `output_dtype` the output has the type of the
+        // zero point input (see `run`).
+        Some(
+            [if let Some(dtype) = self.output_dtype {
+                OutputType::Fixed(ValueType::Tensor(dtype))
+            } else {
+                OutputType::CopyFromInput(2)
+            }]
+            .into(),
+        )
     }
 
     fn as_infer_shapes(&self) -> Option<&dyn InferShapes> {
